@@ -90,7 +90,9 @@ def _gen_evse(rng, exact):
         return {"t": "finite", "rates": CC}
     if r < 0.95:
         return {"t": "finite", "rates": AV}
-    return {"t": "finite", "rates": rng.choice([[0, 6, 12, 18, 24, 30], [0, 10, 20], [0, 16]])}
+    # (fractional levels too: a minimum pilot that is not a whole number of amperes — finding F20)
+    return {"t": "finite", "rates": rng.choice([[0, 6, 12, 18, 24, 30], [0, 10, 20], [0, 16],
+                                                [0, 12.5, 16, 24, 32], [0, 7.5, 15, 22.5, 30], [0, 6.5, 13]])}
 
 
 def _max_of(evse):
